@@ -1,4 +1,5 @@
 import BufModel.Path
+import BufModel.ArchiveKinds
 import Driver.Util
 import Driver.Bucket
 /-
@@ -13,9 +14,20 @@ import Driver.Bucket
     ecp <hex> <hex>        -> true|false
     strip <n> <hex>        -> ok <hex> | none
     comps <hex>            -> <hex>,<hex>,...
+    xt <tar|zip> <strip> <matcher|-> <maxSize> <entries>
+                           -> ok|err:<tag> '|' <hexpath>=<hexcontent>,... (sorted)
+       entries: "-" | comma-separated <kind>:<hexname>:<hexlinkname>:<hexcontent>, archive order, as
+       the archive reader yields them; kind = t<flag><modebits> | z<mode>
+         flag: 0 reg, 1 hard link, 2 symlink, 3 char, 4 block, 5 dir, 6 fifo, 7 contiguous,
+               g PAX global header, S GNU sparse, u unknown
+         modebits (c_IS* of the mode field): n none, r, d, f, l, b, c, s
+         zip mode: p plain(FAT, attrs 0), D FAT dir attribute, r unix regular, d unix dir, l symlink,
+               f fifo, s socket, b block device, c char device
+       runs BufModel.ArchiveKinds.extractRaw (the Untar / Unzip loop) on an empty bucket
 -/
 namespace Driver.C13
 open BufModel.Path Driver
+open BufModel.Archive BufModel.ArchiveKinds
 
 def s2l (s : String) : List Char := s.toList
 def l2s (l : List Char) : String := String.ofList l
@@ -25,7 +37,63 @@ def ex (r : Except PErr Str) : String :=
   | .ok p => "ok " ++ enc (l2s p)
   | .error e => "err " ++ e.tag
 
+def parseTarType : Char → Option TarType
+  | '0' => some .reg | '1' => some .link | '2' => some .symlink | '3' => some .char
+  | '4' => some .block | '5' => some .dir | '6' => some .fifo | '7' => some .cont
+  | 'g' => some .xglobal | 'S' => some .sparse | 'u' => some .unknown | _ => none
+
+def parseModeBits : Char → Option ModeBits
+  | 'n' => some .none | 'r' => some .reg | 'd' => some .dir | 'f' => some .fifo
+  | 'l' => some .lnk | 'b' => some .blk | 'c' => some .chr | 's' => some .sock | _ => none
+
+def parseZipMode : Char → Option ZipMode
+  | 'p' => some .plain | 'D' => some .dosDir | 'r' => some .unixReg | 'd' => some .unixDir
+  | 'l' => some .symlink | 'f' => some .fifo | 's' => some .socket | 'b' => some .blockDev
+  | 'c' => some .charDev | _ => none
+
+def parseEntryKind (s : String) : Option EntryKind :=
+  match s.toList with
+  | ['t', a, b] => do
+      let t ← parseTarType a
+      let mb ← parseModeBits b
+      pure (.tar t mb)
+  | ['z', a] => (parseZipMode a).map .zip
+  | _ => none
+
+def parseRawEntry (s : String) : Option RawEntry :=
+  match s.splitOn ":" with
+  | [k, n, l, c] => do
+      let kind ← parseEntryKind k
+      let name ← hexDecode n
+      let link ← hexDecode l
+      let content ← hexDecode c
+      pure { kind := kind, name := s2l name, linkname := s2l link, content := content }
+  | _ => none
+
+def parseXtMatcher (s : String) : Option (Str → Bool) :=
+  if s = "-" then some (fun _ => true) else
+  match Driver.Bucket.parseMatcher (s.splitOn ":") with
+  | some (m, []) => some (fun p => m.matches p)
+  | _ => none
+
+def dumpHex (objs : List (Str × BufModel.Bucket.Content)) : String :=
+  let enc' := objs.map fun (k, v) => (hexEncode (l2s k), enc v)
+  ",".intercalate ((Driver.Bucket.sortPairs enc').map fun (k, v) => k ++ "=" ++ v)
+
+def handleXt (fmt strip matcher maxSize entries : String) : String :=
+  let f : Option Fmt := match fmt with | "tar" => some .tar | "zip" => some .zip | _ => none
+  match f, strip.toNat?, parseXtMatcher matcher, maxSize.toNat? with
+  | some f, some n, some m, some mx =>
+    let es := if entries = "-" then some [] else (entries.splitOn ",").mapM parseRawEntry
+    match es with
+    | none => "bad-op"
+    | some a =>
+      let (res, dest) := extractRaw f n m mx a []
+      (match res with | none => "ok" | some er => Driver.Bucket.errS er) ++ "|" ++ dumpHex dest
+  | _, _, _, _ => "bad-op"
+
 def handle : List String → String
+  | ["xt", fmt, strip, matcher, maxSize, entries] => handleXt fmt strip matcher maxSize entries
   | ["clean", a] => match hexDecode a with
       | some s => enc (l2s (clean (s2l s))) | none => "bad-op"
   | ["nv", a] => match hexDecode a with
